@@ -2,6 +2,9 @@ package main
 
 import (
 	"bytes"
+	"crypto/cipher"
+	"crypto/hmac"
+	"encoding/binary"
 	"fmt"
 	"io"
 	"net"
@@ -10,6 +13,8 @@ import (
 	"time"
 
 	"github.com/tjfoc/gmsm/gmtls"
+	"github.com/tjfoc/gmsm/sm3"
+	"github.com/tjfoc/gmsm/sm4"
 )
 
 func init() {
@@ -247,6 +252,30 @@ func genC07(r *rng, tier string, emit func(string)) {
 		}
 	}
 	emit("expad -")
+	// CBC records built with the keys but unusual padding: every pad length the format allows (longer than
+	// needed, up to 255) must be accepted, a pad with one wrong byte or a count beyond the record refused
+	for k := 0; k < 40; k++ {
+		mac, key, iv := r.bytes(32), r.block16(), r.block16()
+		payload := r.bytes(r.pick([]int{0, 1, 15, 16, 17, 40}))
+		need := 16 - (len(payload)+32)%16 // shortest pad (1..16)
+		p := need + 16*r.intn(15)
+		if p > 256 {
+			p = need
+		}
+		pad := bytes.Repeat([]byte{byte(p - 1)}, p)
+		switch k % 4 {
+		case 1: // one wrong byte inside the pad, count byte intact
+			if p > 1 {
+				pad[r.intn(p-1)] ^= byte(1 + r.intn(255))
+			}
+		case 2: // first pad byte wrong
+			pad[0] ^= 0x80
+		case 3: // count larger than what is there, record still whole blocks
+			pad = bytes.Repeat([]byte{byte(p - 1 + 16)}, p)
+		}
+		rec := craftCBCRecord(mac, key, 23, 0, iv, payload, pad)
+		emit(fmt.Sprintf("recread cbc %s %s %s %s %s", hx(mac), hx(key), hx(r.block16()), hx(rec), hx(payload)))
+	}
 	for s := 0; s < nSess; s++ {
 		suite := "cbc"
 		if s%2 == 1 {
@@ -359,4 +388,23 @@ func genC07(r *rng, tier string, emit func(string)) {
 			emitRead(m)
 		}
 	}
+}
+
+// craftCBCRecord builds a GMSSL SM4-CBC + HMAC-SM3 record by hand: header ‖ explicit IV ‖ CBC(payload ‖ MAC ‖ pad)
+func craftCBCRecord(macKey, key []byte, typ byte, seq uint64, iv, payload, pad []byte) []byte {
+	h := hmac.New(sm3.New, macKey)
+	var sq [8]byte
+	binary.BigEndian.PutUint64(sq[:], seq)
+	h.Write(sq[:])
+	h.Write([]byte{typ, 0x01, 0x01, byte(len(payload) >> 8), byte(len(payload))})
+	h.Write(payload)
+	body := append(append(append([]byte{}, payload...), h.Sum(nil)...), pad...)
+	blk, err := sm4.NewCipher(key)
+	if err != nil {
+		panic(err)
+	}
+	ct := make([]byte, len(body))
+	cipher.NewCBCEncrypter(blk, iv).CryptBlocks(ct, body)
+	n := len(iv) + len(ct)
+	return append(append([]byte{typ, 0x01, 0x01, byte(n >> 8), byte(n)}, iv...), ct...)
 }
